@@ -210,7 +210,11 @@ def serializer_obligations(ctx, facts, rule=None, scope="all"):
         pk = rl.get("parse")
         pbs = models.body_summary(facts, pk)
         ins = [e for e in pbs["effects"] if e["path"].endswith("HashMap::<K, V, S, A>::insert")]
-        borrowed = len(ins) == 1 and strip_conv(ins[0]["args"][2])[0] == "agg" and strip_conv(ins[0]["args"][2])[1][2] == "Borrowed"
+        vals = [strip_conv(e["args"][2]) for e in ins]
+        if not ins:  # entry API: the value is what VacantEntry::insert stores
+            ins = [e for e in pbs["effects"] if e["path"].endswith("VacantEntry::<'a, K, V, A>::insert")]
+            vals = [strip_conv(e["args"][1]) for e in ins]
+        borrowed = len(ins) == 1 and vals[0][0] == "agg" and vals[0][1][2] == "Borrowed"
         ctx.ob(R("AGREE-K"), "values parsed from text are stored as Cow::Borrowed (the only variant build() can serialise)", borrowed, fn=pk, site=ins[0]["site"] if ins else "", detail="")
         if "Borrowed" in names:
             names = ["Borrowed"]
@@ -308,15 +312,16 @@ def rule_key_lower(ctx):
     for k, b in facts.bodies.items():
         for bb, t in b.calls():
             p = callee_name(t["callee"])
-            if p == "std::collections::HashMap::<K, V, S, A>::insert":
+            # the operations that can create a key: insert(key, v) and entry(key) (whose VacantEntry::insert stores that key)
+            if p in ("std::collections::HashMap::<K, V, S, A>::insert", "std::collections::HashMap::<K, V, S, A>::entry"):
                 args = t["callee"].get("args", [])
                 if not args or "SmartString" not in args[0] and "String" not in args[0]:
                     continue
                 n += 1
                 keyt = norm(b.resolve_operand(t["args"][1]))
                 ok = keyt[0] == "call" and keyt[1] == rl.get("lower")
-                ctx.ob("KEY-LOWER", "%s: inserted map key = copy_as_lowercase(_)" % facts.fns.get(k, {}).get("name", k), ok, fn=k, site=b.site(bb), detail=nshow(keyt)[:120])
-    ctx.ob("KEY-LOWER", "two HashMap::insert sites (text parser, insert_raw)", n == 2, detail="found %d" % n)
+                ctx.ob("KEY-LOWER", "%s: map key created by %s = copy_as_lowercase(_)" % (facts.fns.get(k, {}).get("name", k), p.split("::")[-1]), ok, fn=k, site=b.site(bb), detail=nshow(keyt)[:120])
+    ctx.ob("KEY-LOWER", "key-creating sites on the algorithm map (today: text parser, insert_raw), all inspected", n >= 2, detail="found %d" % n)
     if not rl.get("lower"):
         raise AnchorError("copy_as_lowercase not found")
     lowercase.guardxform_obligations(ctx, facts, rl["lower"], rule="GUARDXFORM")
@@ -326,7 +331,7 @@ def rule_key_lower(ctx):
         for e in models.mut_effects(b):
             if "HashMap" in e["path"] and e["path"].split("::")[-1] not in ("insert", "get_mut", "remove", "clone", "iter_mut"):
                 muts.append((k, e["path"]))
-    ctx.ob("KEY-LOWER", "no other key-creating operation on the map", not [m for m in muts if m[1].split("::")[-1] in ("entry", "extend", "try_insert", "from_iter", "insert_unique_unchecked")], detail=str(muts))
+    ctx.ob("KEY-LOWER", "no other key-creating operation on the map", not [m for m in muts if m[1].split("::")[-1] in ("extend", "try_insert", "from_iter", "insert_unique_unchecked", "raw_entry_mut")], detail=str(muts))
 
 
 def rule_agree_parser(ctx):
@@ -347,8 +352,17 @@ def rule_agree_parser(ctx):
     ins = [e for e in bs["effects"] if e["path"].endswith("HashMap::<K, V, S, A>::insert")]
     ok = False
     det = ""
+    k_ = v_ = None
     if len(ins) == 1:
         k_, v_ = ins[0]["args"][1], ins[0]["args"][2]
+    elif not ins:
+        # entry API: map.entry(key) ... VacantEntry::insert(slot, value) on the Vacant arm of that very entry
+        ents = [e for e in bs["effects"] if e["path"].endswith("HashMap::<K, V, S, A>::entry")]
+        vins = [e for e in bs["effects"] if e["path"].endswith("hash_map::VacantEntry::<'a, K, V, A>::insert") or e["path"].endswith("VacantEntry::<'a, K, V, A>::insert")]
+        if len(ents) == 1 and len(vins) == 1 and any(c[0] in ("is", "callres") and c[-1] == "Vacant" and "::entry" in str(c) for c in vins[0]["catoms"]):
+            k_, v_ = ents[0]["args"][1], vins[0]["args"][1]
+            ins = vins
+    if k_ is not None:
         det = "%s => %s" % (nshow(k_)[:100], nshow(v_)[:100])
         kr = models._region(k_[2][0]) if k_[0] == "call" and k_[1] == rl.get("lower") else None
         vv = strip_conv(v_)
@@ -358,7 +372,7 @@ def rule_agree_parser(ctx):
     HEXLOW = boolsum.set_of("ascii_hexdigit") & ~sum(1 << c for c in range(65, 71))
     ctx.ob("AGREE-K", "neither ',' nor ':' is in the emitted hex class [0-9a-f]", not (HEXLOW >> ord(",")) & 1 and not (HEXLOW >> ord(":")) & 1, detail="hex class computed from the serialiser's guard and to_ascii_lowercase")
     rows = [r for r in models.rejections(facts, key) if r["kind"] == "err"]
-    dup = [r for r in rows if any(t[0] == "pred" and t[1].endswith("::is_some") and t[3] is True for t in r["triggers"])]
+    dup = [r for r in rows if any((t[0] == "pred" and t[1].endswith("::is_some") and t[3] is True) or (t[0] in ("is", "callres") and t[-1] == "Occupied" and "HashMap" in str(t) and "::entry" in str(t)) for t in r["triggers"])]
     ctx.ob("AGREE-K", "a repeated (lower-cased) algorithm is refused with InvalidQualifier", len(dup) == 1 and dup[0]["error"] == "ParseError::InvalidQualifier", fn=key, site=dup[0]["site"] if dup else "", detail="")
 
 
